@@ -249,3 +249,23 @@ func StringN(name string, n int, alphabet string) string {
 	v, _ := replay[key(name)].(string)
 	return v
 }
+
+// And/Or/Not/Implies combine conditions without branching (the symbolic engine
+// builds one formula instead of forking on each operand).
+func And(cs ...bool) bool {
+	for _, c := range cs {
+		if !c {
+			return false
+		}
+	}
+	return true
+}
+func Or(cs ...bool) bool {
+	for _, c := range cs {
+		if c {
+			return true
+		}
+	}
+	return false
+}
+func Implies(a, b bool) bool { return !a || b }
